@@ -78,6 +78,18 @@ def replay_c(payload):
     func = w.get("func")
     if func == "lemma":
         return {"confirmed": False, "observed": "spec-level lemma", "expected": "n/a"}
+    H_ = G.HYPERFRAME
+    outside = None
+    if func == "gsm_fn2gsmtime" and not (0 <= w["fn"] < H_):
+        outside = "fn out of the hyperframe"
+    elif func == "gsm_gsmtime2fn" and not (0 <= w["f"] < H_ and (w["t1"], w["t2"], w["t3"]) == tuple(G.gsm_time(w["f"]))[:3]):
+        outside = "t1/t2/t3 are not the decomposition of f"
+    elif func == "l1s_time_inc" and not (0 <= w["fn"] < H_ and 1 <= w["delta_fn"] < H_):
+        outside = "fn / delta outside their ranges"
+    if outside:
+        # a replay only counts for inputs that satisfy the contract's pre-condition
+        return {"confirmed": False, "observed": "model input outside the pre-condition: %s" % outside, "expected": "n/a",
+                "precondition_met_by_model_input": False}
     if func == "gsm_fn2gsmtime":
         fn = w["fn"]
         argv = ["d", 0, 0, 0, 0, 0, fn]
